@@ -532,10 +532,18 @@ theorem set_units_frame (o o' : Obj) (u : Option U) (h : o.setUnits u = .ok o') 
     · cases h
     · cases h; exact ⟨rfl, rfl, rfl⟩
 
-/-- removing units never touches the stored values or derivatives -/
+/-- removing units never touches the stored values, nor the values of any derivative; the object and all its
+    derivatives end up without units -/
 theorem without_units_frame (o : Obj) :
-    o.withoutUnits.vals = o.vals ∧ o.withoutUnits.derivs = o.derivs ∧ o.withoutUnits.units = none :=
-  ⟨rfl, rfl, rfl⟩
+    o.withoutUnits.vals = o.vals ∧ o.withoutUnits.units = none ∧
+    o.withoutUnits.derivs.map (fun kd => (kd.1, kd.2.vals)) = o.derivs.map (fun kd => (kd.1, kd.2.vals)) ∧
+    ∀ kd ∈ o.withoutUnits.derivs, kd.2.units = none := by
+  refine ⟨rfl, rfl, ?_, ?_⟩
+  · simp [Obj.withoutUnits, List.map_map, Function.comp_def]
+  · intro kd hk
+    simp only [Obj.withoutUnits, List.mem_map] at hk
+    obtain ⟨x, _, rfl⟩ := hk
+    rfl
 
 /-- a class that disallows units rejects every attempt to attach some (TypeError) -/
 theorem set_units_disallowed (o : Obj) (u : U) (h : o.unitsOk = false) :
@@ -596,6 +604,103 @@ theorem set_units_reaches_wod (n : Nat) (o : Obj) (u : Option U) (c' : CObj)
     refine ⟨f3, ?_, f1, ?_, f2⟩
     · rw [w1]; exact f3
     · rw [w1]; exact f1
+
+theorem CObj.step_coherent (c c' : CObj) (h : HOp) (hc : c.Coherent) (hs : c.step h = .ok c') : c'.Coherent := by
+  have fresh : ∀ o : Obj, (⟨o, none⟩ : CObj).Coherent := by intro o w hw; cases hw
+  cases h with
+  | touch => simp only [CObj.step] at hs; injection hs with hs; rw [← hs]; exact (CObj.wod_spec c hc).2.1
+  | setUnits u =>
+    simp only [CObj.step, CObj.setUnits] at hs
+    cases ho : c.obj.setUnits u with
+    | error e => simp [ho] at hs
+    | ok o => simp only [ho] at hs; injection hs with hs; rw [← hs]; exact fresh o
+  | without =>
+    simp only [CObj.step, CObj.withoutUnits] at hs
+    injection hs with hs; rw [← hs]
+    split
+    · exact hc
+    · exact fresh _
+  | into =>
+    simp only [CObj.step, CObj.intoUnits] at hs
+    injection hs with hs; rw [← hs]
+    split
+    · exact hc
+    · split
+      · exact hc
+      · exact fresh _
+  | «from» =>
+    simp only [CObj.step, CObj.fromUnits] at hs
+    injection hs with hs; rw [← hs]
+    split
+    · exact hc
+    · split
+      · exact hc
+      · exact fresh _
+  | clone => simp only [CObj.step, CObj.clone] at hs; injection hs with hs; rw [← hs]; exact fresh _
+
+/-- histories of ANY length, mixing uses of the cached view, `set_units`, `without_units`, `into_units`,
+    `from_units` and `clone()`: the object reached always hands out a `.wod` that carries the object's own
+    current units and values — no step leaves a stale view behind -/
+theorem history_wod_coherent : ∀ (hs : List HOp) (c c' : CObj), c.Coherent → CObj.run hs c = .ok c' →
+    c'.Coherent ∧ c'.wod.1.units = c'.obj.units ∧ c'.wod.1.vals = c'.obj.vals
+  | [], c, c', hc, h => by
+    simp only [CObj.run] at h; injection h with h; subst h
+    have := (CObj.wod_spec c hc).1
+    exact ⟨hc, by rw [this], by rw [this]⟩
+  | x :: xs, c, c', hc, h => by
+    simp only [CObj.run] at h
+    cases hx : c.step x with
+    | error e => simp [hx] at h
+    | ok c1 =>
+      simp only [hx] at h
+      exact history_wod_coherent xs c1 c' (CObj.step_coherent c c1 x hc hx) h
+
+/-- the units of the object after each step are what the step says: `set_units u` → u, `without_units` → None,
+    everything else leaves them alone -/
+def stepUnits : HOp → Option U → Option U
+  | .setUnits u, _ => u
+  | .without, _ => none
+  | _, cur => cur
+
+theorem step_units (c c' : CObj) (h : HOp) (hs : c.step h = .ok c') :
+    c'.obj.units = stepUnits h c.obj.units := by
+  cases h with
+  | touch =>
+    simp only [CObj.step] at hs; injection hs with hs; rw [← hs]
+    show c.wod.2.obj.units = c.obj.units
+    unfold CObj.wod
+    split
+    · rfl
+    · split <;> rfl
+  | setUnits u =>
+    simp only [CObj.step, CObj.setUnits] at hs
+    cases ho : c.obj.setUnits u with
+    | error e => simp [ho] at hs
+    | ok o => simp only [ho] at hs; injection hs with hs; rw [← hs]; exact (set_units_frame _ _ _ ho).2.2
+  | without =>
+    simp only [CObj.step, CObj.withoutUnits] at hs; injection hs with hs; rw [← hs]
+    split
+    · rename_i hcond
+      simp only [Bool.and_eq_true, Option.isNone_iff_eq_none] at hcond
+      exact hcond.1
+    · rfl
+  | into =>
+    simp only [CObj.step, CObj.intoUnits] at hs; injection hs with hs; rw [← hs]
+    split
+    · rfl
+    · rename_i u hu
+      split
+      · rfl
+      · simp [Obj.intoUnits, stepUnits, *]
+  | «from» =>
+    simp only [CObj.step, CObj.fromUnits] at hs; injection hs with hs; rw [← hs]
+    split
+    · rfl
+    · rename_i u hu
+      split
+      · rfl
+      · simp [Obj.fromUnits, stepUnits, *]
+  | clone => simp only [CObj.step, CObj.clone] at hs; injection hs with hs; rw [← hs]; rfl
 
 /-! #### the units rule of object operations -/
 
@@ -663,15 +768,17 @@ theorem unitsRule_dim_norm {a : U} (ha : WF a) (b : Option U) :
   simp [unitsRule, unitsPower, powR, ofSq]
 
 /-- integer powers: whichever route `Scalar.__pow__` takes (shortcut table, rank-0 path, array path),
-    a quantity with units other than "unitless" comes back with the k-th power of its units — except k = 0,
+    a quantity with units comes back with the k-th power of its units (exponents scaled, factor raised) — except k = 0,
     where the result carries no units at all, and k = 1, where the operand's own units are kept -/
 theorem unitsRule_dim_pow {a : U} (ha : WF a) (k : Int) (z : Bool) (b : Option U)
-    (hk0 : k ≠ 0) (hk1 : k ≠ 1) (hu : isUnitless (some a) = false) :
+    (hk0 : k ≠ 0) (hk1 : k ≠ 1) :
     ∃ r, unitsRule (.pow (.half (2 * k)) z) (some a) b = .ok (.obj (some r)) ∧ IsPower r a k := by
   have hk : (2 * k) % 2 = 0 := by omega
   have hd : (2 * k) / 2 = k := by omega
+  have hup : unitsPower (some a) (.half (2 * k)) = .ok (some (.exact (pow a k))) := by
+    simp [unitsPower, powR, hk, hd]
   have hgen : ofSq (unitsPower (some a) (.half (2 * k))) = .ok (.obj (some (pow a k))) := by
-    simp [unitsPower, powR, ofSq, hk, hd]
+    rw [hup]; rfl
   refine ⟨pow a k, ?_, isPower_pow ha k⟩
   simp only [unitsRule]
   unfold powRule
@@ -684,7 +791,23 @@ theorem unitsRule_dim_pow {a : U} (ha : WF a) (k : Int) (z : Bool) (b : Option U
   · rename_i h; rw [← h]; exact hgen
   · rename_i h; have := Pw.half.inj h; omega
   · rename_i h; have := Pw.half.inj h; omega
-  · cases z <;> simp [hu, hgen]
+  · simp only [hup]; rfl
+
+/-- a power that is neither an integer nor a half-integer (repaired rule, the same for a single value and an
+    array): a pure number may be raised to it and stays what it was; a quantity with any other dimension is
+    rejected; absent units stay absent -/
+theorem pow_other (a : U) (z : Bool) (b : Option U) :
+    (isUnitless (some a) = true → unitsRule (.pow .other z) (some a) b = .ok (.obj (some a))) ∧
+    (isUnitless (some a) = false → unitsRule (.pow .other z) (some a) b = .error .valueError) ∧
+    unitsRule (.pow .other z) none b = .ok (.obj none) := by
+  refine ⟨fun h => ?_, fun h => ?_, rfl⟩ <;> simp [unitsRule, powRule, unitsPower, powR, h]
+
+/-- KNOWN FINDING KF-C12-1 (open): `Scalar.log` has no units test at all — the log of a distance is accepted and
+    comes back as a plain number, whereas its inverse `exp` rejects anything but a pure number or an angle.
+    FULL (not provable for the faithful model): log ∈ the functions of `angle_functions_reject`. -/
+theorem log_accepts_any_units_counterexample :
+    unitsRule .log (some ⟨1, 0, 0, 1, 1, 0⟩) none = .ok (.obj none) ∧
+    unitsRule .exp (some ⟨1, 0, 0, 1, 1, 0⟩) none = .error .valueError := by decide
 
 /-- the operations that need matching dimensions -/
 def needsMatch : OpSym → Bool
@@ -835,6 +958,223 @@ theorem sqrt_rejects_odd (a : U) (h : a.e0 % 2 ≠ 0 ∨ a.e1 % 2 ≠ 0 ∨ a.e2
     · exact Or.inl (Or.inr h)
     · exact Or.inr h
   rw [if_pos this]
+
+/-! #### units of the derivatives of results: result units / denominator units -/
+
+theorem e0_pow (a : U) (p : Int) : (pow a p).e0 = p * a.e0 := by
+  have h := exps_pow a p; simp only [U.exps, Prod.mk.injEq] at h; exact h.1
+theorem e1_pow (a : U) (p : Int) : (pow a p).e1 = p * a.e1 := by
+  have h := exps_pow a p; simp only [U.exps, Prod.mk.injEq] at h; exact h.2.1
+theorem e2_pow (a : U) (p : Int) : (pow a p).e2 = p * a.e2 := by
+  have h := exps_pow a p; simp only [U.exps, Prod.mk.injEq] at h; exact h.2.2
+
+theorem canMatch_self (x : U) : canMatch (some x) (some x) = true := by simp [canMatch]
+
+theorem addTerm_same (x : U) : addTerm (some (some x)) (some x) = .ok (.units (some x)) := by
+  simp [addTerm, addU, canMatch_self, orUnits]
+
+/-- dx·y with dx in a/T is in (a·b)/T -/
+theorem dmul_left {a b T : U} (ha : WF a) (hb : WF b) (hT : WF T) : mul (div a T) b = div (mul a b) T := by
+  apply WF.ext ((ha.div hT).mul hb) ((ha.mul hb).div hT)
+  · simp only [U.exps, mul, div, e0_mk, e1_mk, e2_mk, Prod.mk.injEq]; refine ⟨?_, ?_, ?_⟩ <;> omega
+  · simp only [mul, div, piexp_mk]; omega
+  · rw [val_mul (ha.div hT) hb, val_div ha hT, val_div (ha.mul hb) hT, val_mul ha hb]
+    have := val_ne_zero hT; field_simp
+
+/-- x·dy with dy in b/T is in (a·b)/T -/
+theorem dmul_right {a b T : U} (ha : WF a) (hb : WF b) (hT : WF T) : mul a (div b T) = div (mul a b) T := by
+  apply WF.ext (ha.mul (hb.div hT)) ((ha.mul hb).div hT)
+  · simp only [U.exps, mul, div, e0_mk, e1_mk, e2_mk, Prod.mk.injEq]; refine ⟨?_, ?_, ?_⟩ <;> omega
+  · simp only [mul, div, piexp_mk]; omega
+  · rw [val_mul ha (hb.div hT), val_div hb hT, val_div (ha.mul hb) hT, val_mul ha hb]
+    have := val_ne_zero hT; field_simp
+
+/-- `deriv_units_mul`: for × (and dot, cross, outer, element_mul), with dx/dT in a/T and dy/dT in b/T, the
+    derivative of the result is in (a·b)/T — whichever of the two operands carry the derivative -/
+theorem deriv_units_mul {a b T : U} (ha : WF a) (hb : WF b) (hT : WF T) :
+    derivRule .mulLike (some a) (some b) (some (some (div a T))) (some (some (div b T)))
+      = .ok (.units (some (div (mul a b) T))) ∧
+    derivRule .mulLike (some a) (some b) (some (some (div a T))) none = .ok (.units (some (div (mul a b) T))) ∧
+    derivRule .mulLike (some a) (some b) none (some (some (div b T))) = .ok (.units (some (div (mul a b) T))) ∧
+    derivRule .mulLike (some a) none (some (some (div a T))) none = .ok (.units (some (div a T))) := by
+  refine ⟨?_, ?_, ?_, ?_⟩
+  · simp only [derivRule, derivMul, Option.map_some, mulUnits, dmul_left ha hb hT, dmul_right ha hb hT, addTerm_same]
+  · simp only [derivRule, derivMul, Option.map_some, mulUnits, dmul_left ha hb hT]
+  · simp only [derivRule, derivMul, Option.map_none, mulUnits, dmul_right ha hb hT, addTerm]
+  · simp only [derivRule, derivMul, Option.map_some, mulUnits]
+
+theorem ddiv_left {a b T : U} (ha : WF a) (hb : WF b) (hT : WF T) :
+    mul (div a T) (pow b (-1)) = div (div a b) T := by
+  apply WF.ext ((ha.div hT).mul (hb.pow _)) ((ha.div hb).div hT)
+  · simp only [U.exps, mul, div, e0_mk, e1_mk, e2_mk, e0_pow, e1_pow, e2_pow, Prod.mk.injEq]
+    refine ⟨?_, ?_, ?_⟩ <;> omega
+  · simp only [mul, div, piexp_mk, piexp_pow]; omega
+  · rw [val_mul (ha.div hT) (hb.pow _), val_div ha hT, val_pow hb, val_div (ha.div hb) hT, val_div ha hb]
+    have := val_ne_zero hT; have := val_ne_zero hb
+    rw [zpow_neg, zpow_one]; field_simp
+
+theorem ddiv_right {a b T : U} (ha : WF a) (hb : WF b) (hT : WF T) :
+    mul a (mul (mul (div b T) (pow b (-1))) (pow b (-1))) = div (div a b) T := by
+  have h1 := (hb.div hT).mul (hb.pow (-1))
+  have h2 := h1.mul (hb.pow (-1))
+  apply WF.ext (ha.mul h2) ((ha.div hb).div hT)
+  · simp only [U.exps, mul, div, e0_mk, e1_mk, e2_mk, e0_pow, e1_pow, e2_pow, Prod.mk.injEq]
+    refine ⟨?_, ?_, ?_⟩ <;> omega
+  · simp only [mul, div, piexp_mk, piexp_pow]; omega
+  · rw [val_mul ha h2, val_mul h1 (hb.pow _), val_mul (hb.div hT) (hb.pow _), val_div hb hT, val_pow hb,
+      val_div (ha.div hb) hT, val_div ha hb]
+    have := val_ne_zero hT; have := val_ne_zero hb
+    rw [zpow_neg, zpow_one]; field_simp
+
+/-- `deriv_units_div`: for ÷ (qube `_div_derivs`), the derivative of the result is in (a/b)/T -/
+theorem deriv_units_div {a b T : U} (ha : WF a) (hb : WF b) (hT : WF T) :
+    derivRule .div (some a) (some b) (some (some (div a T))) (some (some (div b T)))
+      = .ok (.units (some (div (div a b) T))) ∧
+    derivRule .div (some a) (some b) (some (some (div a T))) none = .ok (.units (some (div (div a b) T))) ∧
+    derivRule .div (some a) (some b) none (some (some (div b T))) = .ok (.units (some (div (div a b) T))) := by
+  refine ⟨?_, ?_, ?_⟩
+  · simp only [derivRule, derivDiv, recipU, Option.map_some, mulUnits, ddiv_left ha hb hT, ddiv_right ha hb hT,
+      addTerm_same]
+  · simp only [derivRule, derivDiv, recipU, Option.map_some, mulUnits, ddiv_left ha hb hT]
+  · simp only [derivRule, derivDiv, recipU, Option.map_none, mulUnits, ddiv_right ha hb hT, addTerm]
+
+theorem delem_right {a b T : U} (ha : WF a) (hb : WF b) (hT : WF T) :
+    mul (div b T) (mul a (pow b (-2))) = div (div a b) T := by
+  have h1 := ha.mul (hb.pow (-2))
+  apply WF.ext ((hb.div hT).mul h1) ((ha.div hb).div hT)
+  · simp only [U.exps, mul, div, e0_mk, e1_mk, e2_mk, e0_pow, e1_pow, e2_pow, Prod.mk.injEq]
+    refine ⟨?_, ?_, ?_⟩ <;> omega
+  · simp only [mul, div, piexp_mk, piexp_pow]; omega
+  · rw [val_mul (hb.div hT) h1, val_mul ha (hb.pow _), val_div hb hT, val_pow hb, val_div (ha.div hb) hT, val_div ha hb]
+    have := val_ne_zero hT; have := val_ne_zero hb
+    rw [show (-2 : ℤ) = -(2 : ℕ) by norm_num, zpow_neg, zpow_natCast]; field_simp
+
+/-- `deriv_units_elem_div`: `Vector.element_div` (repaired form, factor y⁻² in units y⁻²) -/
+theorem deriv_units_elem_div {a b T : U} (ha : WF a) (hb : WF b) (hT : WF T) :
+    derivRule .elemDiv (some a) (some b) (some (some (div a T))) (some (some (div b T)))
+      = .ok (.units (some (div (div a b) T))) := by
+  simp only [derivRule, derivElemDiv, recipU, Option.map_some, mulUnits, ddiv_left ha hb hT, delem_right ha hb hT,
+    addTerm_same]
+
+theorem dsqrt_core {a r T : U} (ha : WF a) (hr : WF r) (hT : WF T) (hm : mul r r = a) :
+    mul (pow r (-1)) (div a T) = div r T := by
+  have e0 : a.e0 = r.e0 + r.e0 := by rw [← hm]; simp [mul]
+  have e1 : a.e1 = r.e1 + r.e1 := by rw [← hm]; simp [mul]
+  have e2 : a.e2 = r.e2 + r.e2 := by rw [← hm]; simp [mul]
+  have ep : a.piexp = r.piexp + r.piexp := by rw [← hm]; simp [mul]
+  have ev : val a = val r * val r := by rw [← hm]; exact val_mul hr hr
+  apply WF.ext ((hr.pow _).mul (ha.div hT)) (hr.div hT)
+  · simp only [U.exps, mul, div, e0_mk, e1_mk, e2_mk, e0_pow, e1_pow, e2_pow, Prod.mk.injEq, e0, e1, e2]
+    refine ⟨?_, ?_, ?_⟩ <;> omega
+  · simp only [mul, div, piexp_mk, piexp_pow, ep]; omega
+  · rw [val_mul (hr.pow _) (ha.div hT), val_pow hr, val_div ha hT, val_div hr hT, ev]
+    have := val_ne_zero hT; have := val_ne_zero hr
+    rw [zpow_neg, zpow_one]; field_simp
+
+/-- `deriv_units_sqrt`: whenever the square root is exact (units r with r·r = a), the derivative of
+    sqrt(x) is in r/T -/
+theorem deriv_units_sqrt {a r T : U} (ha : WF a) (hT : WF T) (hs : sqrt a = .ok (.exact r)) :
+    derivRule .sqrt (some a) none (some (some (div a T))) none = .ok (.units (some (div r T))) := by
+  obtain ⟨hr, hm⟩ := sqrt_sound ha hs
+  simp only [derivRule, derivSqrt, sqrtUnits, hs, ofSq, timesFactor, outUnits, recipU, mulUnits, dsqrt_core ha hr hT hm]
+
+theorem dpow_core {a T : U} (ha : WF a) (hT : WF T) (k : Int) :
+    mul (pow a (k - 1)) (div a T) = div (pow a k) T := by
+  apply WF.ext ((ha.pow _).mul (ha.div hT)) ((ha.pow k).div hT)
+  · simp only [U.exps, mul, div, e0_mk, e1_mk, e2_mk, e0_pow, e1_pow, e2_pow, Prod.mk.injEq]
+    refine ⟨?_, ?_, ?_⟩ <;> ring
+  · simp only [mul, div, piexp_mk, piexp_pow]; ring
+  · rw [val_mul (ha.pow _) (ha.div hT), val_pow ha, val_div ha hT, val_div (ha.pow k) hT, val_pow ha]
+    have h0 := val_ne_zero ha; have := val_ne_zero hT
+    rw [zpow_sub_one₀ h0]; field_simp
+
+/-- `deriv_units_recip`: d(1/x) is in a⁻¹/T; norm and norm_sq likewise carry result units / T -/
+theorem deriv_units_recip_norm {a T : U} (ha : WF a) (hT : WF T) :
+    derivRule .recip (some a) none (some (some (div a T))) none = .ok (.units (some (div (pow a (-1)) T))) ∧
+    derivRule .normSq (some a) none (some (some (div a T))) none = .ok (.units (some (div (mul a a) T))) ∧
+    derivRule .norm (some a) none (some (some (div a T))) none = .ok (.units (some (div a T))) := by
+  refine ⟨?_, ?_, ?_⟩
+  · have h : mul (mul (pow a (-1)) (pow a (-1))) (div a T) = div (pow a (-1)) T := by
+      have e : mul (pow a (-1)) (pow a (-1)) = pow a (-1 - 1) := by
+        rw [show (-1 - 1 : ℤ) = -1 + -1 by norm_num, pow_add ha]
+      rw [e, dpow_core ha hT (-1)]
+    simp only [derivRule, derivRecip, timesFactor, outUnits, recipU, mulUnits, h]
+  · simp only [derivRule, timesFactor, outUnits, mulUnits, dmul_right ha ha hT]
+  · have h : mul (div a a) (div a T) = div a T := by
+      rw [div_self_eq ha]
+      apply WF.ext (WF.unitless.mul (ha.div hT)) (ha.div hT)
+      · simp only [U.exps, mul, div, unitless, e0_mk, e1_mk, e2_mk, Int.zero_add]
+      · simp only [mul, div, unitless, piexp_mk, Int.zero_add]
+      · rw [val_mul WF.unitless (ha.div hT)]; simp [val, unitless]
+    simp only [derivRule, timesFactor, outUnits, divUnits, mulUnits, h]
+
+/-- `deriv_units_pow`: x**2, x**3, x**4 (the shortcut table): the derivative is in a^k/T -/
+theorem deriv_units_pow_small {a T : U} (ha : WF a) (hT : WF T) (z : Bool) :
+    derivRule (.pow (.half 4) z) (some a) none (some (some (div a T))) none = .ok (.units (some (div (pow a 2) T))) ∧
+    derivRule (.pow (.half 6) z) (some a) none (some (some (div a T))) none = .ok (.units (some (div (pow a 3) T))) ∧
+    derivRule (.pow (.half 8) z) (some a) none (some (some (div a T))) none = .ok (.units (some (div (pow a 4) T))) := by
+  have h2 := dpow_core ha hT 2
+  have h3 := dpow_core ha hT 3
+  have h4 := dpow_core ha hT 4
+  rw [show (2 - 1 : ℤ) = 1 by norm_num, pow_one ha] at h2
+  rw [show (3 - 1 : ℤ) = 2 by norm_num] at h3
+  rw [show (4 - 1 : ℤ) = 3 by norm_num] at h4
+  have p4 : (4 : ℤ) / 2 = 2 := by decide
+  have p6 : (6 : ℤ) / 2 = 3 := by decide
+  refine ⟨?_, ?_, ?_⟩
+  · simp [derivRule, derivPow, powRule, unitsPower, powR, ofSq, timesFactor, outUnits, mulUnits, h2]
+  · simp [derivRule, derivPow, powRule, unitsPower, powR, ofSq, timesFactor, outUnits, mulUnits, h3, p4]
+  · simp [derivRule, derivPow, powRule, unitsPower, powR, ofSq, timesFactor, outUnits, mulUnits, h4, p6]
+
+/-- `deriv_units_pow` (generic route `expo · x**(expo−1) · dx`): every integer power k outside the shortcut table,
+    rank-0 or array route alike: the derivative is in a^k/T -/
+theorem deriv_units_pow_generic {a T : U} (ha : WF a) (hT : WF T) (k : Int) (z : Bool)
+    (hk : k ≠ 0 ∧ k ≠ 1 ∧ k ≠ 2 ∧ k ≠ 3 ∧ k ≠ 4 ∧ k ≠ -1) :
+    derivRule (.pow (.half (2 * k)) z) (some a) none (some (some (div a T))) none
+      = .ok (.units (some (div (pow a k) T))) := by
+  obtain ⟨r, hr, _⟩ := unitsRule_dim_pow ha k z none hk.1 hk.2.1
+  obtain ⟨r', hr', hp'⟩ := unitsRule_dim_pow ha (k - 1) z none (by omega) (by omega)
+  simp only [unitsRule] at hr hr'
+  have e2 : 2 * k - 2 = 2 * (k - 1) := by ring
+  -- the factor's units are a^(k-1), exactly
+  have hfac : r' = pow a (k - 1) := by
+    have hk2 : (2 * (k - 1)) % 2 = 0 := by omega
+    have hd : (2 * (k - 1)) / 2 = k - 1 := by omega
+    have hup : unitsPower (some a) (.half (2 * (k - 1))) = .ok (some (.exact (pow a (k - 1)))) := by
+      simp [unitsPower, powR, hk2, hd]
+    have hgen : ofSq (unitsPower (some a) (.half (2 * (k - 1)))) = .ok (.obj (some (pow a (k - 1)))) := by
+      rw [hup]; rfl
+    have : powRule (.half (2 * (k - 1))) z (some a) = .ok (.obj (some (pow a (k - 1)))) := by
+      unfold powRule
+      split
+      · rename_i h; have := Pw.half.inj h; omega
+      · rename_i h; have := Pw.half.inj h; omega
+      · rename_i h; rw [← h]; exact hgen
+      · rename_i h; rw [← h]; exact hgen
+      · rename_i h; rw [← h]; exact hgen
+      · rename_i h; rw [← h]; exact hgen
+      · rename_i h; have := Pw.half.inj h; omega
+      · rename_i h; have := Pw.half.inj h; omega
+      · simp only [hup]; rfl
+    rw [this] at hr'
+    injection hr' with hr'; injection hr' with hr'; injection hr' with hr'
+    exact hr'.symm
+  simp only [derivRule, derivPow, hr]
+  split
+  · rename_i h; have := Pw.half.inj h; omega
+  · rename_i h; have := Pw.half.inj h; omega
+  · rename_i h; have := Pw.half.inj h; omega
+  · rename_i h; have := Pw.half.inj h; omega
+  · rename_i h; have := Pw.half.inj h; omega
+  · rename_i h; have := Pw.half.inj h; omega
+  · rename_i h; have := Pw.half.inj h; omega
+  · rename_i h; have := Pw.half.inj h; omega
+  · rename_i h; cases h
+  · rename_i k2 _ _ _ _ _ _ _ _ h
+    have hk2 : k2 = 2 * k := (Pw.half.inj h).symm
+    subst hk2
+    rw [e2, hr', hfac]
+    simp only [timesFactor, outUnits, mulUnits, dpow_core ha hT k]
 
 /-! #### the name algebra on dictionaries (units.py:452-520, repaired `pop`) -/
 
